@@ -43,6 +43,7 @@ type Shiftf struct {
 
 // Call the function with the arguments provided.
 func (f *Shiftf) Call(s *slip.Scope, args slip.List, depth int) slip.Object {
+	slip.CheckArgCount(s, depth, f, args, 2, -1)
 	values := make(slip.List, len(args))
 	for i := range args {
 		values[i] = slip.EvalArg(s, args, i, depth)
